@@ -24,7 +24,8 @@ def pmap(fn: Callable, items: Iterable, chunk: int = 0, procs: int = 0) -> List:
         chunk = max(1, min(200, (len(items) + procs * 4 - 1) // (procs * 4)))
     chunks = [items[i:i + chunk] for i in range(0, len(items), chunk)]
     ctx = mp.get_context("fork")
-    with ctx.Pool(procs, initializer=_init) as pool:
+    # one fresh fork of the parent per chunk: what a chunk observes never depends on which chunks its worker ran before
+    with ctx.Pool(procs, initializer=_init, maxtasksperchild=1) as pool:
         outs = pool.map(fn, chunks, chunksize=1)
     res = []
     for o in outs:
